@@ -117,7 +117,7 @@ class IEG:
         if parent is not None:
             if parent.depth + 1 > self.max_depth:
                 raise Undecidable("inlining depth bound exceeded at %s" % parent.describe())
-            if kind in ('call', 'await', 'select') and any(f.body is body for f in parent.stack()):
+            if kind in ('call', 'closurecall', 'await', 'select') and any(f.body is body for f in parent.stack()):
                 raise Undecidable("recursion through %s" % body.npath)
         fr = Frame(len(self.frames), body, parent, site, kind, subst, future_expr, call_term)
         self.frames.append(fr)
@@ -497,7 +497,7 @@ class IEG:
                 elif f.kind == 'select':
                     # Poll::Ready(Either::Right((output, other future)))
                     ntag = (('var', d, (0, ((0, (1, ((0, (None, inner)),))),))),)
-                elif f.kind in ('call', 'pollfn') and r0 is not None:
+                elif f.kind in ('call', 'pollfn', 'closurecall') and r0 is not None:
                     ntag = (('var', d, r0),)
             return [(self._node(p, tgt, ntag), 'ret')]
         if k == "yield":
@@ -517,6 +517,12 @@ class IEG:
             if is_await_poll(t):
                 return self._await_succs(n, nxt)
             cb = self.local_callee(f, func)
+            if cb is not None and cb.kind == "Closure" and not cb.is_coroutine and norm(func.get("trait", "")) in ("std::ops::Fn", "std::ops::FnMut", "std::ops::FnOnce") \
+                    and len(t["args"]) == 2 and not cb.span.get("n"):
+                # a local closure invoked by name (`let mut line = |..| ..; line(a, b)`) is part of the function's own text
+                fe = self.resolve(f, t["args"][0], (n.bb, -1))
+                child = self._new_frame(cb, f, n.bb, 'closurecall', dict(f.subst), fe, t)
+                return [(self._node(child, 0, None), 'call')]
             if cb is not None and (self.inline_filter is None or self.inline_filter(cb) or self.facts.is_new_helper(cb.npath)):
                 child = self._new_frame(cb, f, n.bb, 'call', self.call_subst(f, func, cb), call_term=t)
                 return [(self._node(child, 0, None), 'call')]
@@ -635,9 +641,18 @@ class IEG:
                 if 0 <= i < len(t["args"]):
                     pe = frame.parent.res.operand(t["args"][i], (frame.site, -1))
                     return self.lift(frame.parent, pe, depth + 1)
+            if frame.kind == 'closurecall' and e[1] >= 2:
+                # "rust-call" ABI: the arguments arrive as one tuple
+                pe = frame.parent.res.operand(frame.call_term["args"][1], (frame.site, -1))
+                tup = ir.peel(self.lift(frame.parent, pe, depth + 1))
+                if tup[0] == 'agg' and tup[1] == 'tuple':
+                    for (n_, x) in tup[3]:
+                        if n_ == e[1] - 2:
+                            return x
+                return ('field', tup, e[1] - 2)
             return e
         if k == 'upvar':
-            if frame.kind in ('closure', 'await', 'pollfn', 'select'):
+            if frame.kind in ('closure', 'closurecall', 'await', 'pollfn', 'select'):
                 r = self._upvar(frame, e[1])
                 if r is not None:
                     return r
@@ -658,7 +673,7 @@ class IEG:
                 kids = self.__dict__.get("child_at", {}).get((frame.id, bb), [])
                 if depth < 30:
                     for child in kids:
-                        if child.kind in ('call', 'pollfn'):
+                        if child.kind in ('call', 'pollfn', 'closurecall'):
                             r = self._return_expr(child, depth + 1)
                             if r is not None:
                                 return r
